@@ -188,6 +188,12 @@ structure BW where
   /-- `md5_context`: the bytes consumed so far -/
   md5ctx : Option Bytes
   md5 : Option String
+  /-- the announced Content-Length -/
+  cl : Option Nat := none
+  /-- `nb_bytes_written`: bytes handed to the writer (writes that returned Ok) -/
+  nbWritten : Nat := 0
+  /-- `content_discarded`: decoder output beyond the announced Content-Length was dropped -/
+  discarded : Bool := false
 deriving Repr
 
 structure Params where
@@ -266,7 +272,13 @@ def wWrite (P : Params) (st : St) (sbn : Nat) (data : Bytes) : St × Bool :=
 
 def BW.new (tl : Nat) (cl : Option Nat) (cenc : Cenc) (md5 : Bool) : BW :=
   { sbn := 0, bytesLeft := tl, clLeft := cl, cenc := cenc, dz := none, bufLen := 0,
-    md5ctx := if md5 then some [] else none, md5 := none }
+    md5ctx := if md5 then some [] else none, md5 := none, cl := cl, nbWritten := 0, discarded := false }
+
+/-- `check_content_length` -/
+def BW.checkCl (w : BW) : Bool :=
+  match w.cl with
+  | some n => n == w.nbWritten && !w.discarded
+  | none => true
 
 /-- `check_md5` -/
 def BW.checkMd5 (w : BW) (md5 : String) : Bool :=
@@ -292,11 +304,11 @@ def decoderRead (P : Params) : Nat → St → BW → Rx (St × BW × Bool)
         let out := out.take w.bufLen
         if out.isEmpty then .ok (st, w, true) else
         -- the announced content has been written: keep draining the decoder, discard what it returns
-        if w.clLeft = some 0 then decoderRead P fuel st w else
+        if w.clLeft = some 0 then decoderRead P fuel st { w with discarded := true } else
         let w := { w with md5ctx := w.md5ctx.map (· ++ out) }
         let (st, okw) := wWrite P st w.sbn out
         if !okw then .ok (st, w, false) else
-        let w := { w with clLeft := w.clLeft.map (· - out.length) }
+        let w := { w with clLeft := w.clLeft.map (· - out.length), nbWritten := w.nbWritten + out.length }
         decoderRead P fuel st w
 
 /-- the `loop` of `decode_write_pkt` -/
@@ -343,7 +355,7 @@ def bwData (P : Params) (st : St) (w : BW) (data : Bytes) : Rx (St × BW × Bool
   if w.cenc = .null then
     let w := { w with md5ctx := w.md5ctx.map (· ++ data) }
     let (st, ok) := wWrite P st w.sbn data
-    .ok (st, w, ok)
+    .ok (st, { w with nbWritten := if ok then w.nbWritten + data.length else w.nbWritten }, ok)
   else decodeWritePkt P st w data
 
 /-- all blocks written: `decoder.finish()` + `decoder_read` when a decompressor exists -/
@@ -389,8 +401,9 @@ def md5Valid (st : St) (w : BW) : Bool :=
   | some m => w.checkMd5 m
   | none => true
 
-/-- `writer.is_completed()`: MD5 comparison, then `complete` or `error` -/
+/-- `writer.is_completed()`: Content-Length check, MD5 comparison, then `complete` or `error` -/
 def finishObject (st : St) (w : BW) : St :=
+  if !w.checkCl then error st false else
   if md5Valid st w then complete st else error st false
 
 /-- the `while` loop of `write_blocks` -/
